@@ -200,3 +200,13 @@ Definition col_part_names (lo hi : stype -> nat) (nm : list (stype * list string
 Definition col_part (cut : nat -> stype -> nat) (vs : list (stype * fview)) (nm : list (stype * list string))
            (py : nat -> option (list payload)) (pov : nat -> option nat) (j : nat) : tframe :=
   frame_of (col_part_views (cut j) (cut (S j)) vs) (col_part_names (cut j) (cut (S j)) nm) (py j) (pov j).
+
+(* What "the two frames are equal" means, stated on the views only (no reference to the implementation's
+   comparison loop): same number of rows; same target (entry-wise close, a missing entry never close); the same
+   column names per stype (as dicts); and for every stype of the first frame a view of the same storage kind and
+   shape in the second whose cells are all close, missing matching missing. *)
+Definition frames_equal (close : Z -> Z -> bool)
+           (n : nat) (vs : list (stype * fview)) (nm : list (stype * list string)) (yy : option (list payload))
+           (n' : nat) (vs' : list (stype * fview)) (nm' : list (stype * list string)) (yy' : option (list payload)) : Prop :=
+  n = n' /\ y_equiv close yy yy' /\ names_equiv nm nm'
+  /\ forall s v, In (s, v) vs -> exists v', In (s, v') vs' /\ view_close close v v'.
